@@ -5,6 +5,8 @@ import (
 	"context"
 	"encoding/binary"
 	"fmt"
+	"github.com/scionproto/scion/pkg/slayers/path/empty"
+	"github.com/scionproto/scion/pkg/slayers/path/epic"
 	"log/slog"
 	"math/rand/v2"
 	"net"
@@ -47,7 +49,12 @@ func c13Build(rng *rand.Rand, src, dst netip.Addr, sport, dport uint16, payload 
 	seed := rng.Uint64()
 	mk := func() path.Path {
 		lr := rand.New(rand.NewPCG(seed, 3))
-		switch lr.IntN(5) {
+		switch lr.IntN(6) {
+		case 5:
+			if ep, err := peer.EPICPath(lr, 1+lr.IntN(4), 1+lr.IntN(4)); err == nil {
+				return ep
+			}
+			return nil
 		case 0:
 			return nil
 		case 1:
@@ -99,11 +106,22 @@ func c13CheckReply(rq *c13Pkt, reply []byte, wantAuth bool) (ntp []byte, problem
 		problems = append(problems, "ports not exchanged")
 	}
 	var want []byte
+	wantType := empty.PathType
 	if exp := rq.mk(); exp != nil {
+		// the reply to a request over an EPIC-HP path travels over the reversed standard path inside it: the
+		// packet identifier and hop validation fields of the request are not valid for another packet
+		// (as snet.DefaultReplyPather does it)
+		if ep, ok := exp.(*epic.Path); ok {
+			exp = ep.ScionPath
+		}
 		if rev, err := exp.Reverse(); err == nil {
 			want = make([]byte, rev.Len())
 			_ = rev.SerializeTo(want)
+			wantType = rev.Type()
 		}
+	}
+	if ps.SCION.PathType != wantType {
+		problems = append(problems, "path type is not that of the reversed path")
 	}
 	if !bytes.Equal(want, ps.RawPath) {
 		problems = append(problems, "path is not the reversal of the request's path")
@@ -446,6 +464,35 @@ func c13Server(r *ev.Run) {
 		rq, err := c13Build(rng, cli, app, 5555, fc.dport, payload, withAuth)
 		if err != nil {
 			continue
+		}
+		if i%4 == 1 {
+			// an end-to-end header that leaves little or no room for a further option (the header's length
+			// field counts up to 1024 bytes): sender's options of unknown types fill it up to the target
+			target := []int{512, 900, 952, 956, 960, 964, 1000, 1020, 1024}[rng.IntN(9)]
+			have := 2
+			for _, o := range rq.p.E2E {
+				have += 2 + len(o.OptData)
+			}
+			for k := 0; have < target; k++ {
+				l := min(target-have-2, 250)
+				if l < 0 {
+					break
+				}
+				if rest := target - have - 2 - l; rest > 0 && rest < 2 {
+					l--
+				}
+				rq.p.E2E = append(rq.p.E2E, &slayers.EndToEndOption{OptType: slayers.OptionType(40 + k%20), OptData: randBytes(rng, l)})
+				have += 2 + l
+			}
+			if withAuth {
+				rq.data, err = peer.SignPkt(rq.p, c13Key)
+			} else {
+				rq.data, err = rq.p.Serialize()
+			}
+			if err != nil {
+				continue
+			}
+			fc.name += fmt.Sprintf(",end-to-end header of about %d bytes", target/64*64)
 		}
 		_ = uc.Send(fc.to, rq.data)
 		// a sentinel through the same listener orders the observation: once its reply is back, the forwarder has acted
